@@ -44,9 +44,26 @@ static void layout_histories() {
     delete_TorusPolynomial(in); delete_TLweParams(tp);
     sample("layout-history/(2,10)-then-(3,10): one thread decomposes with (l,Bgbit)=(2,10), then with (3,10): both satisfy the digit relation");
 }
+// ring degrees other than 1024 (the decomposition itself is size-generic; multiples of 8, the vector width): every position must give the digits of its own value
+static void sizes() {
+    for (int n : {8, 16, 24, 512, 1032, 2048, 2056, 4096, 8192}) for (Layout L : {Layout{3, 7}, Layout{2, 10}, Layout{4, 8}}) {
+        std::string key = fmt("sizes/N=%d/l=%d/Bgbit=%d", n, L.l, L.Bgbit);
+        if (!take(key)) continue; if (deadline()) return; current(key);
+        TLweParams *tp = new_TLweParams(n, 1, 0., 1.); TGswParams *gp = new_TGswParams(L.l, L.Bgbit, tp); TorusPolynomial *in = new_TorusPolynomial(n); IntPolynomial *dec = new_IntPolynomial_array(L.l, n);
+        uint64_t x = n * 31 + L.l; bool ok = true;
+        for (int rep = 0; rep < 4 && ok; rep++) { for (int j = 0; j < n; j++) in->coefsT[j] = rep == 0 ? (Torus32)(j * 2654435761u) : (Torus32)splitmix(x);
+            std::vector<Torus32> backup(in->coefsT, in->coefsT + n); for (int p = 0; p < L.l; p++) memset(dec[p].coefs, 0x77, n * 4);
+            tGswTorus32PolynomialDecompH(dec, in, gp);
+            if (memcmp(backup.data(), in->coefsT, n * 4)) { violation(key, fmt("input polynomial modified (N=%d)", n)); ok = false; }
+            for (int j = 0; j < n && ok; j++) ok = check_coeff(key, L, (uint32_t)backup[j], dec, j); }
+        eval(4 * (uint64_t)n); nontrivial(1); outcome(mix(n, L.l * 100 + L.Bgbit));
+        delete_IntPolynomial_array(L.l, dec); delete_TorusPolynomial(in); delete_TGswParams(gp); delete_TLweParams(tp);
+    }
+    sample("sizes/N=4096/l=3/Bgbit=7: decomposition of polynomials of degree 4096 (position-dependent and seeded contents): every coefficient's digits satisfy the relation for that coefficient's value");
+}
 int main(int argc, char **argv) {
     init(argc, argv);
-    if (opt("layouts") != "default") layout_histories();
+    if (opt("layouts") != "default") { layout_histories(); sizes(); }
     std::vector<Layout> layouts = quick() ? std::vector<Layout>{{3, 7}, {2, 10}, {4, 8}, {1, 1}}
                                           : std::vector<Layout>{{3, 7}, {2, 10}, {1, 1}, {1, 8}, {2, 2}, {16, 2}, {4, 8}, {32, 1}, {2, 16}, {8, 4}, {3, 10}, {5, 6}, {1, 30}};
     if (opt("layouts") == "default") layouts = {{3, 7}, {2, 10}};
